@@ -6,6 +6,7 @@
 import SifVerif.Model.Image
 import SifVerif.Model.Extra
 import SifVerif.Model.Check
+import SifVerif.Model.Integrity
 import Driver.SHA2
 open Sif
 
@@ -142,6 +143,40 @@ def viewLines (pfx : String) (s : Img) : List String :=
 
 structure DState where
   img : Option Img := none
+  facts : List (Nat × SigFacts) := []
+  fps : List (Nat × Bytes) := []        -- key index ↦ PGP fingerprint
+
+def DState.factsOf (st : DState) (blob : Bytes) : SigFacts := (st.facts.lookup (fnv64 blob).toNat).getD {}
+def DState.fpOf (st : DState) (k : Nat) : Bytes := (st.fps.lookup k).getD []
+
+def hashOf : HashAlg → Bytes → Bytes
+  | .sha224 => SHA2.sha224 | .sha256 => SHA2.sha256 | .sha384 => SHA2.sha384
+  | .sha512 => SHA2.sha512 | .sha512_224 => SHA2.sha512_224 | .sha512_256 => SHA2.sha512_256
+
+def natList (s : String) : List Nat :=
+  if s == "" || s == "-" then [] else (s.splitOn ",").filterMap (·.toNat?)
+
+def optNatList (s : String) : Option (List Nat) := if s == "none" then none else some (natList s)
+
+def strOpt (s : String) : Option String := if s == "-" then none else some (String.ofList ((unhex s).getD [] |>.map (fun b => Char.ofNat b.toNat)))
+
+def ierrClass : IErr → String
+  | .sif e => "sif:" ++ errClass e
+  | .signatureNotFound id g => s!"sigNotFound:{id}:{if g then "g" else "o"}"
+  | .signatureNotValid id => s!"sigNotValid:{id}"
+  | .descriptorIntegrity id => s!"descIntegrity:{id}"
+  | .objectIntegrity id => s!"objIntegrity:{id}"
+  | .headerIntegrity => "hdrIntegrity"
+  | .noKeyMaterial => "noKeyMaterial"
+  | _ => "other"
+
+def parseVerifyOpts (kv : KV) : VerifyOpts × KeyMaterial :=
+  ({ groups := natList (kv.get "groups"), objects := natList (kv.get "objects"),
+     legacy := kv.get "legacy" == "1", legacyAll := kv.get "legacyall" == "1" },
+   { vs := optNatList (kv.get "vs"), kr := optNatList (kv.get "kr") })
+
+def sortDedupNat (l : List Nat) : List Nat := l.foldl insertSorted []
+
 
 def sha := SHA2.sha256Hex
 def ph := parseHashV1
@@ -218,6 +253,140 @@ partial def loop (inp : IO.FS.Stream) (out : IO.FS.Stream) (st : DState) : IO Un
       | .error e =>
         out.putStrLn s!"res err:{errClass e}"
         loop inp out { st with img := none }
+    | "patch" =>
+      -- raw byte edits of the file followed by a fresh load (tampering)
+      let n := kv.nat "nsites"
+      let mut sites : List (Nat × Bytes) := []
+      for _ in [0:n] do
+        let l ← inp.getLine
+        let k := parseKV (((l.trimAscii.toString.splitOn " ").filter (· != "")).drop 1)
+        sites := sites ++ [(k.nat "off", k.bytes "hex")]
+      match st.img with
+      | none =>
+        out.putStrLn "noimg"
+        loop inp out st
+      | some img =>
+        let mut buf := img.st.buf
+        for (off, b) in sites do
+          if off + b.length ≤ buf.length then buf := writeAt buf off b
+        match loadContainer { img.st with buf := buf, pos := 0 } with
+        | .ok img' =>
+          out.putStrLn "res ok"
+          loop inp out { st with img := some img' }
+        | .error e =>
+          out.putStrLn s!"res err:{errClass e}"
+          loop inp out { st with img := none }
+    | "keys" =>
+      let n := kv.nat "n"
+      let mut fps : List (Nat × Bytes) := []
+      for _ in [0:n] do
+        let l ← inp.getLine
+        let k := parseKV (((l.trimAscii.toString.splitOn " ").filter (· != "")).drop 1)
+        fps := fps ++ [(k.nat "idx", k.bytes "fp")]
+      out.putStrLn "keys ok"
+      loop inp out { st with fps := fps }
+    | "facts" =>
+      let n := kv.nat "n"
+      let mut facts : List (Nat × SigFacts) := []
+      for _ in [0:n] do
+        let l ← inp.getLine
+        let k := parseKV (((l.trimAscii.toString.splitOn " ").filter (· != "")).drop 1)
+        let dsse : Option DsseFacts :=
+          if k.get "dsse" == "1" then
+            some { payloadType := k.bytes "ptype",
+                   payload := if k.get "payload" == "none" then none else some (k.bytes "payload"),
+                   validKeys := natList (k.get "vkeys") }
+          else none
+        let cs : Option CsFacts :=
+          if k.get "cs" == "1" then
+            some { plaintext := k.bytes "plain", signer := (k.get "signer").toNat? }
+          else none
+        let mut md : Option RawMD := none
+        if k.get "md" == "1" then
+          let m := k.nat "nobj"
+          let mut objs : List RawObjMD := []
+          for _ in [0:m] do
+            let l2 ← inp.getLine
+            let k2 := parseKV (((l2.trimAscii.toString.splitOn " ").filter (· != "")).drop 1)
+            objs := objs ++ [{ relID := k2.nat "rel", descDigest := strOpt (k2.get "dd"), objDigest := strOpt (k2.get "od") }]
+          md := some { version := k.int "ver", hdrDigest := strOpt (k.get "hd"), objects := objs }
+        facts := facts ++ [(k.nat "h", { dsse := dsse, cs := cs, md := md })]
+      out.putStrLn "facts ok"
+      loop inp out { st with facts := facts }
+    | "verify" =>
+      match st.img with
+      | none => out.putStrLn "noimg"
+      | some img =>
+        let (vo, km) := parseVerifyOpts kv
+        match newVerifier ph img vo with
+        | .error e => out.putStrLn s!"v newerr:{ierrClass e}"
+        | .ok tasks =>
+          match verify hashOf ph st.fpOf st.factsOf img km tasks with
+          | .error e => out.putStrLn s!"v err:{ierrClass e}"
+          | .ok rs =>
+            out.putStrLn s!"v ok n={rs.length}"
+            for r in rs do
+              let ent := match r.entity with | some k => toString k | none => "-"
+              out.putStrLn s!"vr sig={r.sigID} verified={",".intercalate (r.verified.map toString)} keys={",".intercalate ((sortDedupNat r.keys).map toString)} ent={ent}"
+      loop inp out st
+    | "signedby" =>
+      match st.img with
+      | none => out.putStrLn "noimg"
+      | some img =>
+        let (vo, _) := parseVerifyOpts kv
+        match newVerifier ph img vo with
+        | .error e => out.putStrLn s!"fp newerr:{ierrClass e}"
+        | .ok tasks =>
+          match fingerprints ph st.factsOf img tasks (kv.get "any" == "1") with
+          | .error e => out.putStrLn s!"fp err:{ierrClass e}"
+          | .ok fps => out.putStrLn s!"fp ok {",".intercalate (fps.map hex)}"
+      loop inp out st
+    | "sign" =>
+      -- sign groups=… objsets=1+2;3 ht=<hash type> fp=<hex> t=… now=… nblobs=k, then k `blob h=` lines
+      let nb := kv.nat "nblobs"
+      let mut blobs : List Bytes := []
+      for _ in [0:nb] do
+        let l ← inp.getLine
+        let k := parseKV (((l.trimAscii.toString.splitOn " ").filter (· != "")).drop 1)
+        blobs := blobs ++ [k.bytes "h"]
+      match st.img with
+      | none =>
+        out.putStrLn "noimg"
+        loop inp out st
+      | some img =>
+        let objsets : List (List Nat) :=
+          if kv.get "objsets" == "-" || kv.get "objsets" == "" then []
+          else ((kv.get "objsets").splitOn ";").map (fun x => (x.splitOn "+").filterMap (·.toNat?))
+        match newSigner ph img { groups := natList (kv.get "groups"), objectSets := objsets } with
+        | .error e =>
+          out.putStrLn s!"sg newerr:{ierrClass e}"
+          loop inp out st
+        | .ok signers =>
+          out.putStrLn "sg ok"
+          let mut cur := img
+          let mut bl := blobs
+          let mut failed := false
+          for gs in signers do
+            if failed then continue
+            match gs.metadata hashOf cur .sha256, bl with
+            | .error _, _ =>
+              out.putStrLn "sg failed"
+              failed := true
+            | .ok _, [] =>
+              out.putStrLn "sg failed"
+              failed := true
+            | .ok md, b :: rest =>
+              out.putStrLn s!"md g={gs.g} {hex (encMD md)}"
+              bl := rest
+              match sigDescriptorInput gs (kv.int "ht") (kv.bytes "fp") b with
+              | .error _ =>
+                out.putStrLn "sg failed"
+                failed := true
+              | .ok di =>
+                let (img', r) := step sha ph cur (.add di (parseTOpt (kv.get "t"))) (kv.int "now")
+                out.putStrLn s!"res {resStr r}"
+                if r == .ok then cur := img' else failed := true
+          loop inp out { st with img := some cur }
     | "mkimg" =>
       -- the independent encoder: build an image from an explicit description and write it out
       let n := kv.nat "n"
